@@ -102,6 +102,13 @@ def expectedEnv (proc global owner ident : Env) (k : Key) : Option Val :=
 def envHolds (proc global owner ident observed : Env) (keys : List Key) : Bool :=
   keys.all fun k => lookup observed k == expectedEnv proc global owner ident k
 
+/-- Driver-friendly: the value C10 demands the child sees for each key of `keys` (`none` = unset).
+The identifier table only counts for `challenge`. -/
+def expectedChildEnv (kind : EnvKind) (proc global owner ident : Env) (keys : List Key) :
+    List (Key × Option Val) :=
+  keys.map fun k =>
+    (k, expectedEnv proc global owner (match kind with | .challenge => ident | _ => []) k)
+
 /-! ## Group graph (for the cycle statements) -/
 
 /-- `a` resolves to a group (no hook is called `a`) that lists `b`. -/
